@@ -241,12 +241,12 @@ func runC19(c *Ctx) {
 			}
 			c.check(prepared, dec, "payload available", exitPos(r), "returned only after PrepareRead(HeaderLen+len) succeeded", "the payload is returned without PrepareRead(HeaderLen+len) having succeeded: bytes not yet received are handed out")
 			recorded, flagged := false, false
-			for _, a := range storesTo(dec, decodeBytesF) {
+			for _, a := range storesDeep(dec, decodeBytesF) {
 				if stripConv(a.Val) == ssa.Value(wire) && dominatesInstr(a.Instr, r) {
 					recorded = true
 				}
 			}
-			for _, a := range storesTo(dec, decodeResetF) {
+			for _, a := range storesDeep(dec, decodeResetF) {
 				if isConstBool(a.Val, true) && dominatesInstr(a.Instr, r) {
 					flagged = true
 				}
